@@ -10,7 +10,7 @@ if [ -n "$ru" ]; then echo "REPO CONFLICTS: $ru"; exit 1; fi
 (cd harness && cargo build 2>&1 | grep -E "^error" -A8 | head -30)
 git -C /repo add -A src && git -C /repo commit -q --no-edit 2>/dev/null || git -C /repo commit -q -m "verif hooks: registry after merging the $b adapter"
 tools/post_merge.sh > /tmp/post_$b.log 2>&1
-vu=$(git diff --name-only --diff-filter=U | grep -v -E "MANIFEST.json|Main.lean|Consts.lean")
+vu=$(git diff --name-only --diff-filter=U | grep -v -E "MANIFEST.json|Main.lean|Consts.lean|^evidence/")
 if [ -n "$vu" ]; then echo "VERIF CONFLICTS: $vu"; exit 1; fi
 git add -A && git commit -q --no-edit
 for p in "$@"; do ./verif.py check $p; done
